@@ -574,6 +574,9 @@ func (st *ex4State) handler(sv *ex4Server) server4.Handler {
 			// the scripted server answers the client it knows, whatever the library's reply
 			// builder makes of the request's hardware address field
 			rep.ClientHWAddr = append(net.HardwareAddr(nil), ex4ClientHW...)
+			rep.OpCode = dhcpv4.OpcodeBootReply
+			rep.TransactionID = m.TransactionID
+			rep.HWType = m.HWType
 			switch t.Weighted(10, 1, 1, 1) {
 			case 1:
 				rep.TransactionID[3] ^= 0x40
